@@ -205,7 +205,10 @@ fn process_dir(
                     *quit = true;
                     break;
                 }
-                if matcher_io.should_skip_current_dir() {
+                // Under -depth the directory has already been left by the time it is
+                // evaluated, so there is nothing to skip (and skip_current_dir() would
+                // pop its parent instead).
+                if matcher_io.should_skip_current_dir() && !config.depth_first {
                     it.skip_current_dir();
                 }
             }
